@@ -2612,9 +2612,10 @@ class CmpMonad(BoolMonad):
             if monad.translator.row_value_syntax:
                 return [ [ cmp_ops[op], [ 'ROW' ] + left_sql, [ 'ROW' ] + right_sql ] ]
             clauses = []
+            strict_op = { '<=' : '<', '>=' : '>' }.get(op, op)
             for i in range(size):
                 clause = [ [ monad.EQ, left_sql[j], right_sql[j] ] for j in range(i) ]
-                clause.append([ cmp_ops[op], left_sql[i], right_sql[i] ])
+                clause.append([ cmp_ops[op if i == size - 1 else strict_op], left_sql[i], right_sql[i] ])
                 clauses.append(sqland(clause))
             return [ sqlor(clauses) ]
         if op == '==':
